@@ -44,7 +44,7 @@ Section P.
       - inversion E; subst. rewrite String.eqb_refl. reflexivity.
       - destruct (String.eqb a k) eqn:E; [|apply IH; assumption].
         apply String.eqb_eq in E; subst a. exfalso. apply H1. apply in_map_iff. exists (k, v). auto. }
-    destruct p as [|x p']; [reflexivity|]. rewrite (G _ _ H). reflexivity.
+    destruct p as [|x p']; [reflexivity|]. rewrite (G _ _ H). cbn [andb]. destruct (pvalid (x :: p')); reflexivity.
   Qed.
 
   (* an unknown name is rejected *)
@@ -56,17 +56,29 @@ Section P.
     kw <> [] -> assign V p kw = (p', true) -> pvalid p' = false -> snd (set_params V pvalid p kw) = false.
   Proof. intros Hne Ha Hv. unfold set_params. destruct kw; [congruence|]. rewrite Ha, Hv. reflexivity. Qed.
 
+  (* a rejected call (unknown name or out-of-range value) leaves the parameters exactly as they were *)
+  Theorem set_rejected_unchanged (p : params) kw : snd (set_params V pvalid p kw) = false -> fst (set_params V pvalid p kw) = p.
+  Proof.
+    unfold set_params. destruct kw as [|x kw]; [discriminate|].
+    destruct (assign V p (x :: kw)) as [p' ok]. destruct (ok && pvalid p'); [discriminate|reflexivity].
+  Qed.
+  (* an accepted call installs exactly the assigned values, and they are valid *)
+  Theorem set_accepted (p : params) kw p' : kw <> [] -> set_params V pvalid p kw = (p', true) ->
+    assign V p kw = (p', true) /\ pvalid p' = true.
+  Proof.
+    unfold set_params. destruct kw as [|x kw]; [congruence|]. intros _.
+    destruct (assign V p (x :: kw)) as [q ok]. destruct ok; cbn [andb]; [|discriminate].
+    destruct (pvalid q) eqn:E; intros H; inversion H; subst; auto.
+  Qed.
+
   (* set_params on known names = construction with the overridden values; attributes mirror params *)
-  Theorem set_then_attr (p : params) k v : has V p k = true ->
+  Theorem set_then_attr (p : params) k v : has V p k = true -> pvalid (pset V p k v) = true ->
     getattr V (fst (set_params V pvalid p [(k, v)])) k = Some v /\
     (forall k', k <> k' -> getattr V (fst (set_params V pvalid p [(k, v)])) k' = getattr V p k') /\
     map fst (fst (set_params V pvalid p [(k, v)])) = map fst p.
   Proof.
-    intros H. unfold set_params, getattr. cbn. rewrite H. cbn.
-    assert (E : fst (if pvalid (pset V p k v) then (pset V p k v, true) else (pset V p k v, false)) = pset V p k v)
-      by (destruct (pvalid _); reflexivity).
-    destruct (pvalid (pset V p k v)); cbn; repeat split; try (apply pget_pset_same; exact H);
-      try (intros; apply pget_pset_other; assumption); apply keys_pset.
+    intros H Hv. unfold set_params, getattr. cbn. rewrite H. cbn. rewrite Hv. cbn.
+    repeat split; try (apply pget_pset_same; exact H); try (intros; apply pget_pset_other; assumption); apply keys_pset.
   Qed.
 End P.
 
@@ -77,6 +89,15 @@ Proof.
   induction W as [|c W IH]; cbn; [reflexivity|]. intros H. apply andb_true_iff in H as [Hc HW].
   rewrite IH by exact HW. destruct c; [reflexivity|discriminate].
 Qed.
+(* the code before the fix did keep a rejected value *)
+Theorem set_params_before_fix_refuted :
+  exists (pvalid : list (string * nat) -> bool) p kw,
+    snd (set_params_before_fix nat pvalid p kw) = false /\ fst (set_params_before_fix nat pvalid p kw) <> p.
+Proof.
+  exists (fun p => match pget nat p "rho" with Some r => Nat.leb r 8 | None => false end), [("rho", 4)], [("rho", 9)].
+  vm_compute. split; [reflexivity|discriminate].
+Qed.
+
 (* ... and a view is affected: the defect fixed by copying in new_weight *)
 Theorem view_is_affected : exists (W : list (cell nat)) X X', map (resolve nat X 0) W <> map (resolve nat X' 0) W.
 Proof. exists [View nat 0], [1], [2]. cbn. discriminate. Qed.
